@@ -26,6 +26,7 @@ type C04Case struct {
 	FE int      `json:"fe,omitempty"`
 	FP uint     `json:"fp,omitempty"` // big.Float precision
 	FK string   `json:"fk,omitempty"` // big.Float kind: "fin", "+inf", "-inf", "+0", "-0"
+	Al int      `json:"al,omitempty"` // arithmetic: the receiver is operand Al-1 itself (0: a variable of its own)
 }
 
 var c04Arith = []string{"add", "sub", "mul", "quo", "fma", "sqrt", "neg", "abs", "set", "cmp"}
@@ -138,11 +139,42 @@ func genC04(t *rapid.T) C04Case {
 		}
 	}
 	_ = ref
+	// results at the ends of the exponent range: cancellation just above MinExp (underflow to a signed zero),
+	// carries and products at MaxExp
+	if (c.Op == "add" || c.Op == "sub") && c.A[0].F == "f" && c.A[1].F == "f" && rapid.IntRange(0, 7).Draw(t, "edge") == 0 {
+		common := h.GenDigitsN(t, "edge.common", rapid.IntRange(1, 30).Draw(t, "edge.cn"))
+		c.A[0].D = common + h.GenDigitsN(t, "edge.a", rapid.IntRange(1, 5).Draw(t, "edge.an"))
+		c.A[1].D = common + h.GenDigitsN(t, "edge.b", rapid.IntRange(1, 5).Draw(t, "edge.bn"))
+		e := int64(model.MinExp) + int64(rapid.IntRange(0, 3).Draw(t, "edge.e"))
+		if rapid.IntRange(0, 3).Draw(t, "edge.hi") == 0 {
+			e = model.MaxExp - int64(rapid.IntRange(0, 1).Draw(t, "edge.eh"))
+		}
+		c.A[0].E, c.A[1].E = e, e
+		c.A[0].P, c.A[1].P = uint(len(c.A[0].D)), uint(len(c.A[1].D))
+		// opposite effective signs so that the magnitudes cancel
+		c.A[1].Neg = c.A[0].Neg == (c.Op == "add")
+		if rapid.IntRange(0, 4).Draw(t, "edge.same") == 0 {
+			c.A[1].Neg = !c.A[1].Neg
+		}
+	}
 	c.P = uint(rapid.IntRange(1, 60).Draw(t, "p"))
 	if big {
 		c.P = uint(rapid.IntRange(1, maxD/2+1).Draw(t, "pbig"))
 	}
 	switch c.Op {
+	case "add", "sub", "mul", "quo", "fma", "sqrt", "neg", "abs", "set":
+		if rapid.IntRange(0, 4).Draw(t, "aliased") == 0 {
+			// the receiver is one of the operands (it then carries the receiver's precision and mode)
+			i := rapid.IntRange(0, n-1).Draw(t, "alias")
+			a := &c.A[i]
+			if a.F == "f" && uint(len(a.D)) > c.P {
+				c.P = uint(len(a.D))
+			}
+			if !(c.Op == "quo" || c.Op == "sqrt") || int(c.P) <= quoPrecLimit() {
+				a.P, a.M = c.P, c.M
+				c.Al = i + 1
+			}
+		}
 	case "setfloat64":
 		c.F = genFloat64Bits(t, "f")
 	case "setfloat":
@@ -262,6 +294,10 @@ func checkC04(c C04Case, o *h.Obs) *h.Fail {
 		ops[i] = s.Build()
 	}
 	z := mkRecv(c.P, c.M)
+	if c.Al > 0 && c.Al <= len(ops) {
+		z = ops[c.Al-1]
+		o.Label("aliased-receiver")
+	}
 	var cmp int
 	nan := h.CatchNaN(func() {
 		switch c.Op {
